@@ -54,6 +54,9 @@ theorem typeOf_eq_inferTy (te : C.TyEnv) (e : Expr) (h : e.wt te = true) : C.typ
   | ite c a b _ iha ihb =>
     simp only [Expr.wt, Bool.and_eq_true, beq_iff_eq] at h
     simp only [C.typeOf, inferTy, iha h.1.1.2, ihb h.1.2]
+  | mm k a b iha ihb =>
+    simp only [Expr.wt, Bool.and_eq_true, beq_iff_eq] at h
+    simp only [C.typeOf, inferTy, iha h.1.1.1, ihb h.1.1.2, h.1.2, h.2, if_true]
   | _ => simp only [C.typeOf, inferTy]
 
 /-- a bool-typed well-typed expression evaluates (in Python) to a bool -/
@@ -107,6 +110,8 @@ theorem bool_val (te : C.TyEnv) (sp sc : Store) (hrel : Rel te sp sc) (e : Expr)
     split at hpy
     · exact iha v hwt.1.1.2 (hwt.2 ▸ hty) hpy
     · exact ihb v hwt.1.2 hty hpy
+  | abs a => simp [inferTy] at hty
+  | mm k a b => simp [inferTy] at hty
 
 theorem chk_cases (r : Int) : C.chk r = .ok (.int r) ∨ UB (C.chk r) := by
   unfold C.chk UB; split <;> simp
@@ -122,6 +127,12 @@ theorem conv_pyVal (op : BinOp) (x y : Val) : C.conv .int (op.pyVal x y) = .int 
 
 theorem binop_cases (op : BinOp) (a b : Int) : C.binop op a b = .ok (.int (op.eval a b)) ∨ UB (C.binop op a b) :=
   chk_cases _
+
+/-- the macro and the Python builtin choose operands of the same integer value -/
+theorem cpick_toInt (k : MinMax) (x y : Val) :
+    (k.cpick (.int x.toInt) (.int y.toInt)).toInt = (k.pick x y).toInt := by
+  have hi : ∀ n : Int, (Val.int n).toInt = n := fun _ => rfl
+  cases k <;> simp only [MinMax.cpick, MinMax.pick, hi] <;> split <;> split <;> simp only [hi] <;> omega
 
 theorem expr_sim (te : C.TyEnv) (sp sc : Store) (hrel : Rel te sp sc) (e : Expr) (v : Val)
     (hwt : e.wt te = true) (hpy : Py.eval sp e = .ok v) :
@@ -252,6 +263,41 @@ theorem expr_sim (te : C.TyEnv) (sp sc : Store) (hrel : Rel te sp sc) (e : Expr)
         rcases ihb v hwt.1.2 hpy with h' | h'
         · rw [h', ok_bind]; dsimp only; rw [← hwt.2, conv_idem]; left; rfl
         · right; exact ub_bind _ h'
+    · right; exact ub_bind _ h
+  | abs a iha =>
+    simp only [Expr.wt] at hwt
+    rw [Py.eval] at hpy
+    obtain ⟨x, hx, hpy⟩ := bind_ok hpy
+    cases hpy
+    rw [C.eval]
+    rcases iha x hwt hx with h | h
+    · rw [h, ok_bind, conv_toInt _ x (fun ht => bool_val te sp sc hrel a x hwt ht hx)]
+      simp only [inferTy, conv_int_int]
+      by_cases hpos : x.toInt > 0
+      · rw [if_pos hpos]; left
+        have : ((x.toInt.natAbs : Nat) : Int) = x.toInt := by omega
+        rw [this]; rfl
+      · rw [if_neg hpos]
+        have : ((x.toInt.natAbs : Nat) : Int) = -x.toInt := by omega
+        rw [this]
+        exact chk_cases _
+    · right; exact ub_bind _ h
+  | mm k a b iha ihb =>
+    have hty := typeOf_eq_inferTy te _ hwt
+    simp only [Expr.wt, Bool.and_eq_true, beq_iff_eq] at hwt
+    rw [Py.eval] at hpy
+    obtain ⟨x, hx, hpy⟩ := bind_ok hpy
+    obtain ⟨y, hy, hpy⟩ := bind_ok hpy
+    cases hpy
+    rw [C.eval, hty]
+    rcases iha x hwt.1.1.1 hx with h | h
+    · rw [h, ok_bind]
+      rcases ihb y hwt.1.1.2 hy with h' | h'
+      · rw [h', ok_bind, hwt.1.2, hwt.2]
+        left
+        show Except.ok (Val.int (k.cpick (.int x.toInt) (.int y.toInt)).toInt) = .ok (Val.int (k.pick x y).toInt)
+        rw [cpick_toInt]
+      · right; exact ub_bind _ h'
     · right; exact ub_bind _ h
 
 end Reduino.Lemmas.C01
